@@ -77,8 +77,8 @@ theorem stop_sync_quiescent (n : Nat) (q : Bool) (r : List Act)
     rw [a, b]
     split <;> split <;> omega
 
-/-- **from then on**: after `stop(true)` has returned, whatever happens next (new connection attempts,
-    destruction), no further `serve()` call starts or ends, `running()` stays false, the accept loop stays
+/-- **from then on**: after `stop(true)` has returned, whatever happens next (new connection attempts, the end of
+    the accept thread, destruction), no further `serve()` call starts or ends, `running()` stays false, the accept loop stays
     exited, and the destroyed server is never used. -/
 theorem after_stop_nothing_happens (n : Nat) (q : Bool) (r r' : List Act)
     (h : (run (init n q) r).cpc = CPc.returned ∨ (run (init n q) r).cpc = CPc.destroyed) :
@@ -97,6 +97,24 @@ theorem after_stop_nothing_happens (n : Nat) (q : Bool) (r r' : List Act)
 theorem never_used_after_destruction (n : Nat) (q : Bool) (r : List Act) : (run (init n q) r).bad = false :=
   (run_inv r _ (init_inv n q)).notBad
 
+/-- **accept_thread_ended_before_free.**  In every interleaving, when the server has been destroyed the accept thread
+    has completely finished (it uses the `Thread` object the server owns until its very end): the destructor's
+    `join()` is what guarantees it — see `destroy_without_join_unsafe`. -/
+theorem accept_thread_ended_before_free (n : Nat) (q : Bool) (r : List Act)
+    (h : (run (init n q) r).cpc = CPc.destroyed) : (run (init n q) r).threadDone = true :=
+  (run_inv r _ (init_inv n q)).jn h
+
+/-- the destructor as it was before its repair (cancel and free without waiting): `stop(true)` returns as soon as the
+    loop has set `_running = false`, the server is destroyed, and the accept thread's last step then writes into the
+    freed `Thread` object.  (Reproduced on the real library under ASan: known_findings.txt.) -/
+theorem destroy_without_join_unsafe :
+    (run (init 0 false false) [Act.reqStop, Act.check true, Act.readRunning, Act.readNum, Act.destroy, Act.loopEnd]).bad = true := by
+  decide
+
+/-- the loop may also give up on its own (`waitInput` < 0) without any stop request: then `running()` is false while
+    nobody called `stop` — the safety theorems above cover these runs too -/
+example : (run (init 1 false) [Act.loopFail]).running = false ∧ (run (init 1 false) [Act.loopFail]).cpc = CPc.running := by decide
+
 /-- the client counter always equals the number of connections between accept-count and handler end -/
 theorem count_is_in_flight (n : Nat) (q : Bool) (r : List Act) :
     (run (init n q) r).num = (inFlight (run (init n q) r) : Int) :=
@@ -106,7 +124,10 @@ theorem count_is_in_flight (n : Nat) (q : Bool) (r : List Act) :
 
 example : (run (init 2 false) [Act.connect 0, Act.accept 0, Act.count, Act.connect 1, Act.hBegin 0, Act.reqStop,
     Act.check true, Act.readRunning, Act.readNum, Act.readRunning, Act.hEnd 0, Act.hClose 0, Act.hDec 0,
-    Act.readRunning, Act.readNum, Act.destroy]).cpc = CPc.destroyed := by decide
+    Act.readRunning, Act.readNum, Act.destroy, Act.loopEnd, Act.destroy]).cpc = CPc.destroyed := by decide
+
+/-- the destructor waits: while the accept thread has not finished, `destroy` is not enabled (the first `destroy` above is skipped) -/
+example : (run (init 1 false) [Act.reqStop, Act.check true, Act.readRunning, Act.readNum, Act.destroy]).cpc = CPc.returned := by decide
 
 example : (run (init 1 true) [Act.connect 0, Act.accept 0, Act.count, Act.hBegin 0, Act.hEnd 0, Act.hClose 0, Act.hDec 0,
     Act.reqStop, Act.check false, Act.check true, Act.readRunning, Act.readNum]).cpc = CPc.returned := by decide
